@@ -26,12 +26,14 @@ fn expectation(case: &Case, input: &str) -> Option<(bool, String)> {
     })
 }
 
-fn agrees(real: &Real, exp: &(bool, String)) -> bool {
-    match (real, exp) {
-        (Real::Ok(s), (true, c)) => check::view(s).map(|v| &v.pos == c).unwrap_or(false),
-        (Real::Err { .. }, (false, _)) => true,
+fn agrees(real: &Real, exp: &(bool, String, Real)) -> bool {
+    // reference model (acceptance and tree) and the baseline run (complete result, error detail included)
+    let model = match (real, exp) {
+        (Real::Ok(s), (true, c, _)) => check::view(s).map(|v| &v.pos == c).unwrap_or(false),
+        (Real::Err { .. }, (false, _, _)) => true,
         _ => false,
-    }
+    };
+    model && *real == exp.2
 }
 
 pub fn shard_main(prop: &str, registry: &[Entry]) {
@@ -69,7 +71,7 @@ pub fn shard_main(prop: &str, registry: &[Entry]) {
     if let Some((cid, inputs, sched)) = replay {
         let case = &corpus[cid];
         let f = reg[&cid].run;
-        let exps: Vec<(bool, String)> = inputs.iter().map(|i| expectation(case, i).unwrap()).collect();
+        let exps: Vec<(bool, String, Real)> = inputs.iter().map(|i| { let e = expectation(case, i).unwrap(); let (f, i2) = (f, i.clone()); let b = std::thread::spawn(move || f(&i2, Mode::Plain)).join().unwrap(); (e.0, e.1, b) }).collect();
         let bad = Arc::new(Mutex::new(None));
         let bad2 = bad.clone();
         let inputs2 = inputs.clone();
@@ -101,13 +103,19 @@ pub fn shard_main(prop: &str, registry: &[Entry]) {
         emit(json!({"k":"at","case":cid}));
         let inputs = case.inputs.materialize();
         // events per input (sequential, recording tracer)
-        let mut ev: Vec<(String, usize, (bool, String))> = Vec::new();
+        let mut ev: Vec<(String, usize, (bool, String, Real))> = Vec::new();
         for inp in &inputs {
             let Some(exp) = expectation(case, inp) else { continue };
-            user::reset(Answers::default());
-            let _ = (entry.run)(inp, Mode::Recorded);
-            let n = take_trace().len();
-            ev.push((inp.clone(), n, exp));
+            // baseline: complete result of this input parsed alone on a fresh OS thread
+            let (f, inp2) = (entry.run, inp.clone());
+            let base = std::thread::spawn(move || {
+                hrt::real::silence_panics();
+                let r = f(&inp2, Mode::Recorded);
+                (r, take_trace().len())
+            })
+            .join()
+            .unwrap();
+            ev.push((inp.clone(), base.1, (exp.0, exp.1, base.0)));
         }
         // pairs chosen to collide: same first character (same rules at the same offsets), different continuation
         let pair_budget = if tier == Tier::Quick { 6 } else { 20 };
@@ -138,7 +146,7 @@ pub fn shard_main(prop: &str, registry: &[Entry]) {
         for p in pairs {
             groups += 1;
             let ins: Vec<String> = p.iter().map(|i| ev[*i].0.clone()).collect();
-            let exps: Vec<(bool, String)> = p.iter().map(|i| ev[*i].2.clone()).collect();
+            let exps: Vec<(bool, String, Real)> = p.iter().map(|i| ev[*i].2.clone()).collect();
             let f = entry.run;
             let count = Arc::new(AtomicU64::new(0));
             let bad: Arc<Mutex<Option<(usize, String)>>> = Arc::new(Mutex::new(None));
